@@ -629,7 +629,7 @@ def evaluate(ctx, res, pid, cases, tags, stats):
                 stats["out_of_guard_failing"] = stats.get("out_of_guard_failing", 0) + 1
                 continue
             small = case
-            if len(case) > 6 and not crash:
+            if len(case) > 6 and not crash and sum(1 for v in res.violations if v["kind"] == "impl-monitor") < 3:
                 try:
                     small = C.shrink_list(case, _still_fails_like(_kind(j["fail"]), pid == "C17"), budget=60)
                 except Exception:
